@@ -435,3 +435,11 @@ BREAKING += [
     ('c01-parse-factory-count', ['C01'], [(A, _PARSE_ITEM_DEF, _FACTORY + "parse_r_type = plain_args_parser(RTypeInstruction, 2, 'r-type instructions require exactly 3 args')\n\n\n" + _PARSE_ITEM_DEF),
                                           (A, _R_ARM_OLD, "        return parse_r_type(line, head, tokens)")]),
 ]
+
+_CLS_FMT_EDITS = [(A, "class Instruction(Item):\n", "class Instruction(Item):\n\n    WORD_FORMAT = '<I'\n"), (A, _FMT_OLD, "        fmt = item.WORD_FORMAT\n")]
+PRESERVING += [
+    ('p-pack-class-attr', ['C01', 'C02'], _CLS_FMT_EDITS + [(A, "class CompressedInstruction(Instruction):\n", "class CompressedInstruction(Instruction):\n\n    WORD_FORMAT = '<H'\n")]),
+]
+BREAKING += [
+    ('c02-pack-class-attr-one-class', ['C02'], _CLS_FMT_EDITS + [(A, "class CRTypeInstruction(CompressedInstruction):\n", "class CRTypeInstruction(CompressedInstruction):\n\n    WORD_FORMAT = '<H'\n")]),
+]
